@@ -329,4 +329,18 @@ def strip_case(case):
 
 
 if __name__ == "__main__":
-    sys.exit(main())
+    try:
+        rc = main()
+    except SystemExit:
+        raise
+    except BaseException as ex:      # an internal error of the check is never a silent pass
+        import traceback
+        tb = traceback.format_exc()
+        prop = sys.argv[1] if len(sys.argv) > 1 else "?"
+        path = run.write_replay(prop, "unproved", {
+            "property": prop, "kind": "no-failing-input-found",
+            "theorem_or_correspondence": ["the check itself failed: %r" % (ex,)], "details": [tb[-3000:]], "cases": []})
+        print(tb[-1500:])
+        print("VIOLATION property=%s replay=%s no-failing-input-found" % (prop, path))
+        rc = 1
+    sys.exit(rc)
